@@ -60,7 +60,7 @@ Proof.
 Qed.
 
 Lemma reserved_by_ext : forall t1 t2 v s,
-  (forall g, g <> T_SINDIR -> t1 g = t2 g) -> reserved_by t1 v s = reserved_by t2 v s.
+  (forall g, g <> S_LINCOM_COUNT_OPTIONAL -> t1 g = t2 g) -> reserved_by t1 v s = reserved_by t2 v s.
 Proof.
   intros t1 t2 v s H. unfold reserved_by, reserved_words. simpl.
   rewrite !(H R_UNTIL), !(H R_FRAMEOFFSET), !(H R_ENCODING), !(H R_ENDIAN), !(H R_INCLUDE),
